@@ -265,7 +265,11 @@ impl Parse for VariantMeta {
                 _kw,
                 props: props
                     .into_iter()
-                    .map(|Prop(k, v)| (LitStr::new(&k.to_string(), k.span()), v))
+                    // `r#type = ..` declares the key "type"
+                    .map(|Prop(k, v)| {
+                        use syn::ext::IdentExt;
+                        (LitStr::new(&k.unraw().to_string(), k.span()), v)
+                    })
                     .collect(),
             })
         } else {
